@@ -605,8 +605,18 @@ func genC19(c *Ctx) {
 			_, isIW := tx.UnmarshalIndexWrapper(btx)
 			c.check(!isIW, "UnmarshalIndexWrapper", "recognised a blob transaction as an index wrapper", wit)
 		}
-		// index wrapper
+		// index wrapper (the degenerate ones too: no inner transaction and / or no indexes)
 		n := r.Intn(5)
+		switch i {
+		case 3:
+			inner, n = nil, 0
+		case 4:
+			inner, n = []byte{}, 1
+		case 5:
+			n = 0
+		case 6:
+			inner, n = []byte{}, 0
+		}
 		idx := make([]uint32, n)
 		parts := make([]string, n)
 		for j := range idx {
